@@ -1,7 +1,7 @@
 (* Entry points of the extracted model (what extract/main.ml calls). *)
 From Coq Require Import List NArith Bool.
 From GoSyn Require Import Token Tok Regex Scanner Render.
-From GoSyn.spec Require Import NumLit.
+From GoSyn.spec Require Import NumLit StrLit.
 From GoSynGen Require Import GenClasses.
 Import ListNotations.
 Open Scope N_scope.
@@ -14,3 +14,7 @@ Definition oracle_num (s : str) : N :=
   | Some k => lk_tag k
   | None => 0
   end.
+
+Definition oracle_rune (s : str) : N := if runelit_b s then 82 else 0.
+Definition oracle_string (s : str) : N := if stringlit_b s then 83 else 0.
+Definition esc_str (s : str) : str := esc s.
